@@ -220,11 +220,15 @@ func scanTag(lit string) ([]TagItem, bool) {
 
 // ---- generators ----
 
-var tagKeys = []string{"json", "protobuf", "valid", "xml", "db", "form", "yaml", "bson", "v2", "my_tag", "alipay", "wechat"}
+var tagKeys = []string{"json", "protobuf", "valid", "xml", "db", "form", "yaml", "bson", "v2", "my_tag", "alipay", "wechat",
+	"x_json", "myvalid", "json2", "JSON", "a", "_"} // keys that end with / start with / differ only in case from other keys
 var tagValRunes = []rune("abcxyzABC019 ,=|~$\\/-_.:;()[]{}<>#@!?*+'测试验")
 
 func genTagVal(t *rapid.T, label string) string {
 	switch rapid.IntRange(0, 6).Draw(t, label+"Kind") {
+	case 1:
+		// a small pool of common values: different keys (and injected vs existing items) often carry the same value
+		return rapid.SampledFrom([]string{"name", "required", "-", "a"}).Draw(t, label+"Common")
 	case 0:
 		return rapid.SampledFrom([]string{"name,omitempty", "bytes,1,opt,name=name,proto3", "required,to=1~3", "to=1~10|cost in $USD", "$1", "${x}", "$$", "re='\\d+'|必须为纯数字", "a\\b", "-"}).Draw(t, label+"Fixed")
 	default:
@@ -272,6 +276,14 @@ func genSrcField(t *rapid.T, idx int, allowNoTagAnnotated bool) SrcField {
 			f.TagSep = append(f.TagSep, rapid.SampledFrom([]string{" ", " ", "  ", "\t", "   "}).Draw(t, "sep"))
 		}
 		f.TagSep = append(f.TagSep, rapid.SampledFrom([]string{"", "", " "}).Draw(t, "trail"))
+	}
+	if f.HasTag && strings.HasPrefix(f.Type, "struct") && rapid.Bool().Draw(t, "sameAsInner") {
+		// the outer literal is byte-identical to a literal inside the field's own type
+		if strings.Contains(f.Type, "`json:\"inner\"`") {
+			f.Tag, f.TagSep = []TagItem{{"json", "inner"}}, []string{"", ""}
+		} else {
+			f.Tag, f.TagSep = []TagItem{{"x", "y"}}, []string{"", ""}
+		}
 	}
 	if rapid.IntRange(0, 3).Draw(t, "hasCmt") > 0 {
 		f.HasCmt = true
